@@ -838,7 +838,7 @@ func aggregateEscapes(al *ssa.Alloc) bool {
 
 func init() {
 	register(&Rule{Name: "STATELESS", Floor: 2, Run: ruleStateless, Fixture: "fixture.keepsTable",
-		Doc: "validation, merging, hashing, subject parsing and the regeneration decision are functions of their arguments (and of the database they are handed): no function they can reach in the module writes a package-level variable, or reads one that anything outside package initialisation writes (the logging package's verbosity excepted) — a result must not depend on which certificates were processed before"})
+		Doc: "validation, merging, hashing, subject parsing, the extension constructors and the regeneration decision are functions of their arguments (and of the database they are handed): no function they can reach in the module writes a package-level variable, or reads one that anything outside package initialisation writes (the logging package's verbosity excepted) — a result must not depend on which certificates were processed before"})
 }
 
 // globalRoot: the package-level variable whose memory an address or value belongs to.
@@ -946,6 +946,26 @@ func ruleStateless(c *Ctx, r *Rep) {
 			roots = append(roots, fn)
 		} else {
 			r.Undecided("anchor:HashSum", "", "method not found")
+		}
+		// the extension constructors: what an extension encodes to depends on what it was given, not on which
+		// extensions were built before it in this process (an encoding kept in a package-level cache under a key
+		// that does not tell two contents apart hands the second certificate the bytes of the first)
+		nCons := 0
+		for _, fn := range c.Funcs {
+			if fn.Parent() != nil || fn.Blocks == nil || fn.Object() == nil || !fn.Object().Exported() || fn.Signature.Recv() != nil || !strings.HasSuffix(fnPkgPath(fn), "generator/cert") {
+				continue
+			}
+			res := fn.Signature.Results()
+			for i := 0; i < res.Len(); i++ {
+				if strings.HasSuffix(types.TypeString(res.At(i).Type(), nil), "crypto/x509/pkix.Extension") {
+					roots = append(roots, fn)
+					nCons++
+					break
+				}
+			}
+		}
+		if nCons == 0 {
+			r.Undecided("anchor:extension-constructors", "", "no exported function of generator/cert answers a pkix.Extension")
 		}
 		if fn := c.decisionFunc(); fn != nil {
 			roots = append(roots, fn)
